@@ -227,7 +227,8 @@ S10P == (1..14) \X (1..5) \X {0, 1} \X {0, 129, 5} \X {"buffer", "stream"}
 S10B(p, k) ==
     [ fam |-> "S10",
       cfg |-> [scheme |-> 0, E |-> BigE, B |-> 8, interleave |-> 2, queues |-> << <<0, 1>> >>],
-      objs |-> << [clen |-> p[1] * 4 - p[3], src |-> p[5], oti |-> Oti(p[4], 4, p[2], IF p[4] = 0 THEN 0 ELSE 1, TRUE)] >>,
+      \* (the stream returns 3 bytes per read: a block is filled by several short reads)
+      objs |-> << [clen |-> p[1] * 4 - p[3], src |-> p[5], chunks |-> <<3>>, oti |-> Oti(p[4], 4, p[2], IF p[4] = 0 THEN 0 ELSE 1, TRUE)] >>,
       ops |-> << <<"add", 1>>, <<"publish">>, <<"drain">> >> ]
 
 \* S9: trigger_transfer_at under contention: three objects with several transfers each share one queue with fewer slots,
